@@ -27,6 +27,10 @@ type Op struct {
 	SRID   int `json:"srid,omitempty"`
 	Bad    int `json:"bad,omitempty"`
 	OnOrig bool `json:"onOrig,omitempty"` // clone: continue on the original instead of the clone
+	// Target selects (modulo the number of live values) which live value the
+	// operation applies to: clones and swap partners stay alive and keep being
+	// operated on, so that storage shared between two values shows up.
+	Target int `json:"target,omitempty"`
 }
 
 // Case is a receiver and a history.
@@ -70,7 +74,7 @@ func genCase(t *rapid.T) Case {
 	if c.Kind == model.GeometryCollection {
 		c.Fixed = rapid.Bool().Draw(t, "fixed")
 	}
-	cur := geom.Layout(c.Layout)
+	alive := []geom.Layout{geom.Layout(c.Layout)}
 	n := rapid.IntRange(1, 30).Draw(t, "nops")
 	if run.Thorough() {
 		n = rapid.IntRange(1, 60).Draw(t, "nops2")
@@ -81,7 +85,9 @@ func genCase(t *rapid.T) Case {
 		if c.Kind == model.GeometryCollection {
 			names = []string{"push", "push", "push", "pushmulti", "pushbad", "clone"}
 		}
-		op := Op{Name: rapid.SampledFrom(names).Draw(t, "op")}
+		op := Op{Name: rapid.SampledFrom(names).Draw(t, "op"), Target: rapid.IntRange(0, 3).Draw(t, "target")}
+		tgt := op.Target % len(alive)
+		cur := alive[tgt]
 		switch op.Name {
 		case "push":
 			l := cur
@@ -121,9 +127,13 @@ func genCase(t *rapid.T) Case {
 			for j := 0; j < k; j++ {
 				op.Parts = append(op.Parts, genPart(t, pk, geom.Layout(op.Layout)))
 			}
-			cur = geom.Layout(op.Layout)
+			alive[tgt] = geom.Layout(op.Layout)
+			alive = append(alive, cur) // the swap partner stays alive with the old contents
 		case "clone":
 			op.OnOrig = rapid.Bool().Draw(t, "onorig")
+			if c.Kind != model.GeometryCollection {
+				alive = append(alive, cur)
+			}
 		case "touchpart", "repush":
 			op.Bad = rapid.IntRange(0, 1000).Draw(t, "which")
 		}
@@ -376,23 +386,47 @@ func buildPart(g *model.G, step int) (geom.T, error) {
 	return p, nil
 }
 
+type live struct {
+	recv   geom.T
+	st     *state
+	pushed []pushedPart
+}
+
+func cloneState(st *state) *state {
+	ns := &state{layout: st.layout, srid: st.srid}
+	for i := range st.parts {
+		ns.parts = append(ns.parts, *st.parts[i].Clone())
+	}
+	return ns
+}
+
 func prop(c Case) error {
-	st := &state{layout: geom.Layout(c.Layout)}
-	recv := newRecv(c.Kind, st.layout, c.Fixed)
-	var pushed []pushedPart
-	checkPushed := func(step string) error {
-		for i, pp := range pushed {
-			if now := snapPart(pp.t); now != pp.snap {
-				return fmt.Errorf("%s: the part object pushed earlier (#%d) was modified through the receiver:\n before %s\n after  %s", step, i, pp.snap, now)
+	first := &live{recv: newRecv(c.Kind, geom.Layout(c.Layout), c.Fixed), st: &state{layout: geom.Layout(c.Layout)}}
+	objs := []*live{first}
+	checkAll := func(step string) error {
+		for k, o := range objs {
+			name := step
+			if len(objs) > 1 {
+				name = fmt.Sprintf("%s [live value %d of %d]", step, k, len(objs))
+			}
+			if err := invariant(name, c.Kind, o.recv, o.st, c.Fixed); err != nil {
+				return err
+			}
+			for i, pp := range o.pushed {
+				if now := snapPart(pp.t); now != pp.snap {
+					return fmt.Errorf("%s: the part object pushed earlier (#%d) was modified through the receiver:\n before %s\n after  %s", name, i, pp.snap, now)
+				}
 			}
 		}
 		return nil
 	}
-	if err := invariant("new", c.Kind, recv, st, c.Fixed); err != nil {
+	if err := checkAll("new"); err != nil {
 		return err
 	}
 	for i, op := range c.Ops {
 		step := fmt.Sprintf("step %d (%s)", i, op.Name)
+		o := objs[op.Target%len(objs)]
+		recv, st := o.recv, o.st
 		switch op.Name {
 		case "push":
 			p, err := buildPart(&op.Parts[0], i)
@@ -404,14 +438,14 @@ func prop(c Case) error {
 			}
 			st.parts = append(st.parts, *op.Parts[0].Clone())
 			if c.Kind != model.GeometryCollection {
-				pushed = append(pushed, pushedPart{p, snapPart(p)})
+				o.pushed = append(o.pushed, pushedPart{p, snapPart(p)})
 			}
 		case "repush":
 			// the same part object pushed again (a part may be shared by several pushes)
-			if len(pushed) == 0 || c.Kind == model.GeometryCollection {
+			if len(o.pushed) == 0 || c.Kind == model.GeometryCollection {
 				break
 			}
-			pp := pushed[op.Bad%len(pushed)]
+			pp := o.pushed[op.Bad%len(o.pushed)]
 			if pp.t.Layout() != st.layout {
 				break
 			}
@@ -425,11 +459,11 @@ func prop(c Case) error {
 			st.parts = append(st.parts, *pm)
 		case "touchpart":
 			// the caller changes a part object after it was pushed: the receiver holds a copy
-			if len(pushed) == 0 {
+			if len(o.pushed) == 0 {
 				break
 			}
-			k := op.Bad % len(pushed)
-			pt := pushed[k].t
+			k := op.Bad % len(o.pushed)
+			pt := o.pushed[k].t
 			switch op.Bad % 3 {
 			case 0:
 				if f := pt.FlatCoords(); len(f) > 0 {
@@ -450,7 +484,7 @@ func prop(c Case) error {
 					f[0] = -float64(op.Bad)
 				}
 			}
-			pushed[k].snap = snapPart(pt)
+			o.pushed[k].snap = snapPart(pt)
 		case "pushbad":
 			p, err := model.Build(&op.Parts[0], model.RouteFlat)
 			if err != nil {
@@ -529,12 +563,10 @@ func prop(c Case) error {
 			case *geom.MultiPolygon:
 				r.Swap(other.(*geom.MultiPolygon))
 			}
-			// the other value now holds what the receiver held
-			if err := invariant(step+" other", c.Kind, other, st, false); err != nil {
-				return err
-			}
-			st = ost
-			pushed = nil
+			// the two values exchanged everything: the partner (with the old contents,
+			// and the part objects that were pushed into that storage) stays alive
+			objs = append(objs, &live{recv: other, st: st, pushed: o.pushed})
+			o.st, o.pushed = ost, nil
 		case "clone":
 			var cl geom.T
 			switch r := recv.(type) {
@@ -546,20 +578,13 @@ func prop(c Case) error {
 				cl = r.Clone()
 			case *geom.MultiPolygon:
 				cl = r.Clone()
-			default:
-				cl = recv
 			}
-			if err := invariant(step+" clone", c.Kind, cl, st, c.Fixed); err != nil {
-				return err
-			}
-			if !op.OnOrig {
-				recv = cl
+			if cl != nil {
+				// both the original and the clone stay alive and are operated on
+				objs = append(objs, &live{recv: cl, st: cloneState(st)})
 			}
 		}
-		if err := invariant(step, c.Kind, recv, st, c.Fixed); err != nil {
-			return err
-		}
-		if err := checkPushed(step); err != nil {
+		if err := checkAll(step); err != nil {
 			return err
 		}
 	}
